@@ -462,6 +462,9 @@ func seqPrelude(sort, elem string, quant bool) string {
 	p("(assert (forall ((s %s) (v %s) (i Int)) (! (= (%s_idx (%s_build s v) i) (ite (= i (%s_len s)) v (%s_idx s i))) :pattern ((%s_idx (%s_build s v) i)))))", S, elem, S, S, S, S, S, S)
 	p("(assert (forall ((s %s) (v %s)) (! (= (%s_build s v) (%s_app s (%s_build %s_empty v))) :pattern ((%s_build s v)) :qid needs.%s_app)))", S, elem, S, S, S, S, S, S)
 	p("(assert (forall ((s %s) (v %s)) (! (= (%s_sl (%s_build s v) 0 (%s_len s)) s) :pattern ((%s_build s v)))))", S, elem, S, S, S, S)
+	// append of a sequence that ends in v ends in v; a non-empty sequence is its front with its last element
+	p("(assert (forall ((s %s) (t %s) (v %s)) (! (= (%s_app s (%s_build t v)) (%s_build (%s_app s t) v)) :pattern ((%s_app s (%s_build t v))))))", S, S, elem, S, S, S, S, S, S)
+	p("(assert (forall ((s %s) (k Int)) (! (=> (and (<= 0 k) (= (+ k 1) (%s_len s))) (= s (%s_build (%s_sl s 0 k) (%s_idx s k)))) :pattern ((%s_sl s 0 k)))))", S, S, S, S, S, S)
 	p("(assert (forall ((s %s) (i Int) (v %s)) (! (= (%s_len (%s_upd s i v)) (%s_len s)) :pattern ((%s_upd s i v)))))", S, elem, S, S, S, S)
 	p("(assert (forall ((s %s) (i Int) (v %s) (j Int)) (! (= (%s_idx (%s_upd s i v) j) (ite (and (= i j) (<= 0 i) (< i (%s_len s))) v (%s_idx s j))) :pattern ((%s_idx (%s_upd s i v) j)))))", S, elem, S, S, S, S, S, S)
 	p("(assert (forall ((n Int) (v %s)) (! (=> (>= n 0) (= (%s_len (%s_rep n v)) n)) :pattern ((%s_rep n v)))))", elem, S, S, S)
